@@ -43,7 +43,14 @@ PROP = {
              "timeout, or an answer over the healthy connection - and once the server behaves again for new connections the client "
              "is re-established within 14 s of the failed send, later calls succeed; c12.auth: the same holes with the calls' "
              "results predicted by the model, goroutine count around each call, NewConnection under a 400 ms context against a "
-             "hole returns an error by its deadline); go/ast check of the statement order in Request / "
+             "hole returns an error by its deadline); overlapping reconnects (12 rounds of 8 goroutines released together into Connection.reconnect() with a 150 ms "
+             "handshake, and 48 callers x 512 KiB blocked in their writes when the server resets the connection: exactly one new "
+             "connection per round, never more than one live server-side connection of the client, none later during 12 s of "
+             "observation on a fed connection); authenticated reconnects whose authentication is swallowed (handshake answered then "
+             "silence, tcp.authentificate ignored, transport swallowed, two nonce packets back to back with the first malformed): "
+             "calls return by their deadline, Connection.mu never stuck, re-established within 14 s, later calls succeed; a frame the "
+             "client cannot parse (checksum, length below 64, above 8 MiB) makes it give the connection up and reconnect (c12.auth, "
+             "predicted); go/ast check of the statement order in Request / "
              "registerCallback / processQueryAnswer. A class is (kind, connections, callers bucket, waves/drop or race shape "
              "or history shape, outcome)."),
     'explanation': ("coq/Properties/C12.v: for every trace of the labelled transition system of client.go + the status machine of "
@@ -55,7 +62,7 @@ PROP = {
                     "is never dropped by it); after any number of failed attempts and any waiting time the reconnect loop can "
                     "still succeed (attempts are independent; a single deadline for the whole loop is refuted); the pinger of a connection "
                     "is alive and enabled in every reachable state, across failed pings and reconnects, and time cannot pass its "
-                    "deadline without a ping (a pinger that returns after a failed ping is refuted); a connection attempt whose handshake has a deadline ends (without one it never does: the repaired defect); the deadline of a call is min(client timeout, caller deadline) (the "
+                    "deadline without a ping (a pinger that returns after a failed ping is refuted); of overlapping reconnect() calls exactly one dials (checking the status before taking the lock is refuted); a connection attempt whose handshake has a deadline ends (without one it never does: the repaired defect); the deadline of a call is min(client timeout, caller deadline) (the "
                     "variant that lets a later caller deadline replace the client timeout is refuted); the authentication channel, "
                     "never closed, serves any number of re-authentications (closing it after the first one is refuted: panic); a new call over an established "
                     "connection completes. The extracted model predicts or accepts every generated history of the real client."),
